@@ -56,6 +56,10 @@ pub struct C05Case {
 	/// (restart mode) when the command ignores signals
 	#[serde(default)]
 	pub with_signal: bool,
+	/// signal mode through the --signal shorthand: 0 alone, 1-3 together with an explicit --on-busy-update
+	/// naming another mode (queue / restart / do-nothing), which --signal is documented to override ("implies")
+	#[serde(default)]
+	pub spelling: u8,
 }
 
 fn mono_ns() -> u128 {
@@ -111,7 +115,15 @@ fn argv(c: &C05Case, logs: &Logs) -> Vec<OsString> {
 		(1, _) => v.push("--on-busy-update=queue".into()),
 		(2, true) => v.push("-r".into()),
 		(2, false) => v.push("--on-busy-update=restart".into()),
-		(_, true) => v.push(format!("--signal={sig}").into()),
+		(_, true) => {
+			v.push(format!("--signal={sig}").into());
+			match c.spelling % 4 {
+				1 => v.push("--on-busy-update=queue".into()),
+				2 => v.push("--on-busy-update=restart".into()),
+				3 => v.push("--on-busy-update=do-nothing".into()),
+				_ => {}
+			}
+		}
 		(_, false) => v.push("--on-busy-update=signal".into()),
 	}
 	if !(c.mode % 4 == 3 && c.shorthand) {
@@ -268,8 +280,13 @@ pub fn run(c: &C05Case) -> Outcome {
 					}
 					(None, _) => {
 						let since_end = last.as_ref().and_then(|r| r.end).map_or(u128::MAX, |e| (now.saturating_sub(e)) / 1_000_000);
-						if since_end >= 150 {
-							// nothing runs and nothing is about to (no queued change outstanding is known to the driver)
+						// nothing runs and nothing is about to: every change sent so far has had time to be acted on.
+						// The handler's --delay-run sleeps run inside the job task one after the other, so k changes
+						// sent close together need k x (debounce + delay) before the run they cause has started.
+						let cycle = u128::from(c.debounce) + u128::from(c.delay_run.unwrap_or(0));
+						let since_last_send = sent.last().map_or(u128::MAX, |l: &Sent| now.saturating_sub(l.after) / 1_000_000);
+						let settled = since_last_send >= cycle * (sent.len().min(3) as u128) + 250;
+						if since_end >= 150 && settled {
 							break "idle";
 						}
 					}
@@ -541,9 +558,9 @@ fn strategy() -> BoxedStrategy<C05Case> {
 		prop_oneof![3 => Just(0u8), 2 => Just(1u8), 2 => Just(2u8)],
 		prop_oneof![Just(450u16), Just(900), Just(1300)],
 		proptest::collection::vec(pos, 1..5),
-		proptest::bool::weighted(0.3),
+		(proptest::bool::weighted(0.3), 0u8..4),
 	)
-		.prop_map(|(mode, shorthand, stop_signal, stop_timeout, delay_run, debounce, cmd, exit_after, changes, with_signal)| C05Case {
+		.prop_map(|(mode, shorthand, stop_signal, stop_timeout, delay_run, debounce, cmd, exit_after, changes, (with_signal, spelling))| C05Case {
 			mode,
 			shorthand,
 			stop_signal,
@@ -554,6 +571,7 @@ fn strategy() -> BoxedStrategy<C05Case> {
 			exit_after,
 			changes,
 			with_signal,
+			spelling,
 		});
 	// the command exits by itself while the handler is still in its --delay-run sleep: the busy
 	// check and the restart / queue control then race with the collection of the exit
@@ -568,6 +586,7 @@ fn strategy() -> BoxedStrategy<C05Case> {
 		exit_after,
 		changes: vec![Pos::ExitDuringDelay; n],
 		with_signal: false,
+		spelling: 0,
 	});
 	prop_oneof![4 => general, 1 => racy].boxed()
 }
@@ -667,7 +686,7 @@ pub fn check(e: &Engine) {
 			..LegOpts::realtime(
 			e.tier.pick(180, 3_000),
 			16,
-			"the four on-busy modes (and the -r / --signal shorthands), stop signal TERM/INT/USR1, stop timeout 100-400 ms, optional --delay-run, debounce 20-50 ms; command exits after 450-1300 ms / runs until signalled / ignores the stop signal; 1-4 changes positioned against the observed lifecycle: clearly mid-run, clearly idle, at the moment of exit, inside the grace period, back-to-back, and (restart / queue with --delay-run 200-400 ms) timed so that the command exits during the handler's delay sleep; non-trivial = a mid-run or boundary change",
+			"the four on-busy modes (and the -r / --signal shorthands, --signal also next to an explicit --on-busy-update naming another mode, which it overrides), stop signal TERM/INT/USR1, stop timeout 100-400 ms, optional --delay-run, debounce 20-50 ms; command exits after 450-1300 ms / runs until signalled / ignores the stop signal; 1-4 changes positioned against the observed lifecycle: clearly mid-run, clearly idle, at the moment of exit, inside the grace period, back-to-back, and (restart / queue with --delay-run 200-400 ms) timed so that the command exits during the handler's delay sleep; non-trivial = a mid-run or boundary change",
 		)},
 		&strategy,
 		&run,
